@@ -843,6 +843,25 @@ def _check_assembly(res, rng, cname, mesh, N_poly, r, worst, pool_cpu=None, symm
             report(res, 'C09:pool-differs-from-serial:%s:sobolev' % cname, dict(curve=cname, cpu=pool_cpu, max_abs_diff=float(np.max(np.abs(eta - eta_mp)))))
         if not np.array_equal(wl2, wl2_mp):
             report(res, 'C09:pool-differs-from-serial:%s:weighted-l2' % cname, dict(curve=cname, cpu=pool_cpu))
+        # the same estimator, the same list OBJECT, another residual (what a loop does that estimates two quantities on
+        # one mesh): the workers must see the residual of the current call
+        def r2(t, x_hat, gamma, _r=r):
+            return 3.0 * _r(t, x_hat, gamma) + np.asarray(t, dtype=float)
+        eta2 = est.estimate_sobolev(elems, r2)
+        wl22 = est.estimate_weighted_l2(elems, r2)
+        with cpu_count(pool_cpu):
+            eta2_mp = est.estimate_sobolev(elems, r2, use_mp=True)
+            wl22_mp = est.estimate_weighted_l2(elems, r2, use_mp=True)
+        res.count(('pool-second-residual', cname, pool_cpu, len(elems)), True)
+        if not np.array_equal(eta2, eta2_mp):
+            report(res, 'C09:pool-differs-from-serial:%s:sobolev:second-residual' % cname,
+                   dict(curve=cname, cpu=pool_cpu, max_abs_diff=float(np.max(np.abs(eta2 - eta2_mp))),
+                        equals_first_residual_result=bool(np.array_equal(eta2_mp, eta_mp)),
+                        history='estimate_sobolev(elems, r, use_mp=True) then estimate_sobolev(elems, r2, use_mp=True), same list object'))
+        if not np.array_equal(wl22, wl22_mp):
+            report(res, 'C09:pool-differs-from-serial:%s:weighted-l2:second-residual' % cname,
+                   dict(curve=cname, cpu=pool_cpu, equals_first_residual_result=bool(np.array_equal(wl22_mp, wl2_mp)),
+                        history='estimate_weighted_l2(elems, r, use_mp=True) then (elems, r2, use_mp=True), same list object'))
     if not symmetric:
         return
     moves = []
